@@ -96,3 +96,166 @@ Proof. vm_compute. reflexivity. Qed.
 Example ex_gate : gate 1 [1; 2] [[1; 2]; [9]] [0] = Ok Decode /\ gate 1 [1; 2] [[1; 2]] [0] = Ok Skip
                   /\ gate 1 [1; 2] [[1; 3]; [9]] [0] = Ok Skip.
 Proof. vm_compute. repeat split. Qed.
+
+(* ==== BRIDGE gate -> rows (Model/BridgeGateRows.v, Proofs/BridgeGateRowsP.v) ====
+   Model/Rows.v (C11) takes the integration's signature hash as declaration
+   data ([d_sighash], any bytes).  [decl_of ed] is the Rows-level declaration
+   built from an event declaration [ed] (integration name, event name, inputs
+   as ABI JSON types + column + filter, block data, table columns, filter_agg)
+   the way dig.New builds it: [d_sighash := keccak256 (event_sig ..)] with the
+   concrete Keccak-256 of Model/Keccak.v, indexed flags from the JSON.  The
+   statements below have no free signature hash and no free hash function.
+   [declared_log name js l]: [l] has 1 + #indexed topics and topic 0 =
+   keccak256 (canon_sig name js).  Unqualified [gate]/[num_indexed] above are
+   Model/AbiSig.v's; below both are written qualified. *)
+From Shovel Require Import Model.Bint Model.AbiScan Model.AbiEnc Model.Filter Model.Rows Model.RowsAbi.
+From Shovel Require Import Model.BridgeGateRows.
+From Shovel Require Proofs.BridgeGateRowsP.
+
+(* the gate inside the row builder, on that declaration, IS C13's gate on the
+   integration dig.New builds (stored hash = Keccak-256 of Event.Signature(),
+   numIndexed), for every log *)
+Theorem bridge_rows_gate_is_c13_gate : forall ed l,
+  Rows.gate (decl_of ed) l = true <->
+  exists st, AbiSig.gate (AbiSig.num_indexed (ed_json ed)) (ig_sighash keccak256 (ed_json ed))
+                         (l_topics l) (l_data l) = Ok st /\ st <> Skip.
+Proof. exact BridgeGateRowsP.rows_gate_is_c13_gate. Qed.
+Print Assumptions bridge_rows_gate_is_c13_gate.
+
+(* ... and passes exactly the logs of the declared event *)
+Theorem bridge_gate_declared_event : forall ed l,
+  Rows.gate (decl_of ed) l = true <-> declared_log (ed_event ed) (ed_js ed) l.
+Proof. exact BridgeGateRowsP.gate_decl_of_iff. Qed.
+Print Assumptions bridge_gate_declared_event.
+
+(* Insert (rows handed to COPY; or its error / panic) is the same on the chain
+   with every log that is not a log of the declared event ERASED: every
+   indexing mode, any decoded rows, any input types, no success premise *)
+Theorem insert_ignores_undeclared_logs : forall ed c dbs blocks,
+  insert fixed (decl_of ed) c dbs (keep_logs (is_declared_log (ed_event ed) (ed_js ed)) blocks)
+  = insert fixed (decl_of ed) c dbs blocks.
+Proof. exact BridgeGateRowsP.insert_ignores_undeclared_l. Qed.
+Print Assumptions insert_ignores_undeclared_logs.
+
+(* log mode, Insert succeeded: the rows are the concatenation, in chain order,
+   of one (possibly empty) group per log; a log's group is what processLog
+   returns for it, and is non-empty ONLY IF the log is a log of the declared
+   event (decoded rows [l_scan] are a given here; any input types) *)
+Theorem undeclared_logs_contribute_nothing : forall ed c dbs blocks rows,
+  let d := decl_of ed in
+  indexing fixed d = IxLog -> insert fixed d c dbs blocks = Ok rows ->
+  exists per, rows = concat per /\ length per = length (log_items blocks) /\
+    forall k b t l, nth_error (log_items blocks) k = Some (b, t, l) ->
+      exists rs, nth_error per k = Some rs /\
+        process_log fixed d dbs (mk_env c d b t (Some l) None) l = Ok rs /\
+        (rs <> [] -> declared_log (ed_event ed) (ed_js ed) l) /\
+        (~ declared_log (ed_event ed) (ed_js ed) l -> rs = []).
+Proof. exact BridgeGateRowsP.undeclared_logs_l. Qed.
+Print Assumptions undeclared_logs_contribute_nothing.
+
+(* THE COMPOSED STATEMENT.  Declaration: event [name] with inputs [xs]
+   (elementary types with array suffixes, in C11's end-to-end domain
+   [e2e_dom]), any columns / block data / table / filters; the decoder is
+   inside the model ([chain_with_scan]: Event.ABIType then Result.Scan on each
+   log's data).  If Insert succeeds, its rows are the concatenation in chain
+   order of one group per log, and ([log_contribution]) the group of a log
+   - is empty unless topic 0 = keccak256 (canonical signature) and there are
+     1 + #indexed topics;
+   - for such a log whose data is the ABI encoding of values [vs] of the
+     declared types (anything may follow) is exactly what C11's
+     log_rows_end_to_end describes: one candidate per element of the selected
+     array, the accepted ones in order, each cell from ITS OWN value / topic /
+     enclosing item ([row_spec_v]);
+   - for such a log without data: [row_spec]. *)
+Theorem rows_only_for_declared_event : forall ig name xs block cols agg c dbs blocks rows,
+  let d := decl_of (tin_evdecl ig name xs block cols agg) in
+  e2e_dom xs false = true -> indexing fixed d = IxLog ->
+  insert fixed d c dbs (chain_with_scan d blocks) = Ok rows ->
+  exists per,
+    rows = concat per /\ length per = length (log_items (chain_with_scan d blocks)) /\
+    forall k b t l, nth_error (log_items (chain_with_scan d blocks)) k = Some (b, t, l) ->
+      exists rs, nth_error per k = Some rs /\
+                 log_contribution name xs d (mk_env c d b t (Some l) None) l rs.
+Proof. exact BridgeGateRowsP.rows_only_l. Qed.
+Print Assumptions rows_only_for_declared_event.
+
+(* a log of ANOTHER event (name2, js2).  The premise is about the two 32-byte
+   HASHES: nothing assumes that different signatures hash differently. *)
+Theorem other_event_log_no_rows : forall ed name2 js2 dbs e l,
+  keccak256 (ed_sig ed) <> keccak256 (canon_sig name2 js2) ->
+  declared_log name2 js2 l -> process_log fixed (decl_of ed) dbs e l = Ok [].
+Proof. exact BridgeGateRowsP.other_event_log_no_rows_l. Qed.
+Print Assumptions other_event_log_no_rows.
+
+Theorem other_event_logs_erasable : forall ed name2 js2 c dbs blocks,
+  keccak256 (ed_sig ed) <> keccak256 (canon_sig name2 js2) ->
+  insert fixed (decl_of ed) c dbs (keep_logs (fun l => negb (is_declared_log name2 js2 l)) blocks)
+  = insert fixed (decl_of ed) c dbs blocks.
+Proof. exact BridgeGateRowsP.other_event_logs_erasable_l. Qed.
+Print Assumptions other_event_logs_erasable.
+
+(* that premise is NECESSARY (and is not implied by the lower layers: Keccak-256
+   is not injective): the integration rejects every log of the other event
+   exactly when the hashes differ or the numbers of indexed inputs do.  With
+   equal hashes and equal counts every log of the other event passes the gate
+   and is decoded as the declared event. *)
+Theorem other_event_excluded_iff : forall ed name2 js2,
+  (forall l, declared_log name2 js2 l -> Rows.gate (decl_of ed) l = false) <->
+  (keccak256 (ed_sig ed) <> keccak256 (canon_sig name2 js2) \/
+   length (filter j_indexed (ed_js ed)) <> length (filter j_indexed js2)).
+Proof. exact BridgeGateRowsP.other_event_excluded_iff_l. Qed.
+Print Assumptions other_event_excluded_iff.
+
+Theorem hash_collision_would_be_accepted : forall ed name2 js2 l,
+  keccak256 (ed_sig ed) = keccak256 (canon_sig name2 js2) ->
+  length (filter j_indexed (ed_js ed)) = length (filter j_indexed js2) ->
+  declared_log name2 js2 l -> Rows.gate (decl_of ed) l = true.
+Proof. exact BridgeGateRowsP.hash_collision_accepted_l. Qed.
+Print Assumptions hash_collision_would_be_accepted.
+
+(* Transfer(address,address,uint256) / Approval(address,address,uint256): the
+   same inputs layout (two indexed, 3 topics); the hashes differ BY COMPUTATION *)
+Theorem transfer_approval_hashes_differ :
+  keccak256 (str "Transfer(address,address,uint256)") = transfer_topic /\
+  keccak256 (str "Approval(address,address,uint256)") = approval_topic /\
+  keccak256 (str "Transfer(address,address,uint256)") <> keccak256 (str "Approval(address,address,uint256)").
+Proof. exact BridgeGateRowsP.transfer_approval_l. Qed.
+Print Assumptions transfer_approval_hashes_differ.
+
+(* ANY Transfer integration (any integration name, columns, block data, table,
+   filter_agg) stores ddf252ad.. and 2; an Approval log (3 topics, topic 0 =
+   8c5be1e5..; any data, any decoded rows) fails its gate and gives no row *)
+Theorem decoy_same_layout_no_rows : forall ig c1 c2 c3 block cols agg dbs e l,
+  let d := decl_of (tin_evdecl ig (str "Transfer") (erc20_inputs c1 c2 c3) block cols agg) in
+  length (l_topics l) = 3%nat -> nth_error (l_topics l) 0 = Some approval_topic ->
+  Rows.num_indexed d = 2%nat /\ d_sighash d = transfer_topic /\
+  Rows.gate d l = false /\ process_log fixed d dbs e l = Ok [].
+Proof. exact BridgeGateRowsP.decoy_l. Qed.
+Print Assumptions decoy_same_layout_no_rows.
+
+Theorem decoy_logs_erasable : forall ig c1 c2 c3 block cols agg c dbs blocks,
+  let d := decl_of (tin_evdecl ig (str "Transfer") (erc20_inputs c1 c2 c3) block cols agg) in
+  insert fixed d c dbs
+         (keep_logs (fun l => negb (is_declared_log (str "Approval") (map tin_jty (erc20_inputs c1 c2 c3)) l)) blocks)
+  = insert fixed d c dbs blocks.
+Proof. exact BridgeGateRowsP.decoy_erasable_l. Qed.
+Print Assumptions decoy_logs_erasable.
+
+(* non-vacuity, by computation.  One transaction with three logs of the same
+   layout and valid data: Approval(1,2,5), Transfer(1,2,7), Approval(1,2,9).
+   The Transfer integration (columns f, t, v, log_idx) is in the domain of
+   rows_only_for_declared_event, indexes logs, and copies exactly the Transfer
+   row; the Approval integration over the same chain copies the other two. *)
+Example ex_decoy_premises :
+  e2e_dom (erc20_inputs (s2b "f") (s2b "t") (s2b "v")) false = true /\
+  indexing fixed (decl_of ex_transfer) = IxLog /\
+  length (log_items (chain_with_scan (decl_of ex_transfer) ex_erc20_chain)) = 3%nat /\
+  d_sighash (decl_of ex_transfer) = transfer_topic.
+Proof. repeat split; vm_compute; reflexivity. Qed.
+Example ex_decoy_same_layout :
+  insert_cells fixed (decl_of ex_transfer) ex_ctx [] (chain_with_scan (decl_of ex_transfer) ex_erc20_chain)
+  = Ok [[CBytes (repeat 0 19 ++ [1]); CBytes (repeat 0 19 ++ [2]); CInt 7; CInt 1]]
+  /\ insert_cells fixed (decl_of ex_approval) ex_ctx [] (chain_with_scan (decl_of ex_approval) ex_erc20_chain)
+  = Ok [[CBytes (repeat 0 19 ++ [1]); CBytes (repeat 0 19 ++ [2]); CInt 5; CInt 0];
+        [CBytes (repeat 0 19 ++ [1]); CBytes (repeat 0 19 ++ [2]); CInt 9; CInt 2]].
+Proof. split; vm_compute; reflexivity. Qed.
